@@ -136,6 +136,16 @@ func TestVerifC15(t *testing.T) {
 			edge = append(edge[:i], edge[i+1:]...)
 			k++
 		}
+		if si%4 == 0 { // a file with text after the end of the license (trimmed before archiving)
+			has := false
+			for _, f := range files {
+				has = has || f == "Apache-2.0.txt"
+			}
+			if !has {
+				files = append(files, "Apache-2.0.txt")
+				k++
+			}
+		}
 		if si%3 == 1 {
 			files = append(files, "README.md", "empty.db") // non-.txt entries are skipped
 		}
@@ -152,7 +162,9 @@ func TestVerifC15(t *testing.T) {
 			if !strings.HasSuffix(f, ".txt") || what != "" {
 				continue
 			}
-			txt := vread(f)
+			// the archive holds the text without what follows an obvious end of the license (Apache-2.0's
+			// appendix …): the archived text, not the whole file, is what must match exactly
+			txt := licenseclassifier.TrimExtraneousTrailingText(vread(f))
 			if m := lc.NearestMatch(txt); m == nil {
 				continue // no common license words: the gate is part of License, not of the archive
 			} else if m.Confidence != 1.0 {
